@@ -175,6 +175,9 @@ func matcherMarker(op, v string) string {
 	return marker
 }
 
+// group openers that add no label to `| regexp` (no capture)
+var nonCapturing = strings.NewReplacer("(?:", "", "(?i)", "", "(?i:", "", "(?s)", "")
+
 var tmplOp = regexp.MustCompile(`(=~|!~|!=|=)%s`)
 
 // result of placing one value in one position
@@ -191,6 +194,7 @@ type res struct {
 type site struct {
 	name string
 	run  func(v string) res
+	re   bool // the position carries a regular expression (set by markRegexSites)
 }
 
 func rejected(why string) res { return res{rej: why} }
@@ -338,11 +342,15 @@ func logqlReSite(name, tmpl string) site {
 		sqls, rej := runLogql(fmt.Sprintf(tmpl, lit), false, false)
 		exp, err := syntax.Parse(want, syntax.PerlX)
 		if err == nil && exp.Op == syntax.OpLiteral && exp.Flags&^(syntax.PerlX|syntax.FoldCase) == 0 {
-			mk := marker
+			mk, mklit := marker, marker
 			if exp.Flags&syntax.FoldCase != 0 {
+				// under (?i) regexp/syntax keeps the folded runes of the literal (`(?i)web` is the literal WEB): the marker shows up folded too
 				mk = "(?i)" + marker
+				if me, err := syntax.Parse(mk, syntax.PerlX); err == nil && me.Op == syntax.OpLiteral {
+					mklit = string(me.Rune)
+				}
 			}
-			return res{sqls: sqls, want: string(exp.Rune), mode: "like", mk: mk, mklit: marker, rej: rej}
+			return res{sqls: sqls, want: string(exp.Rune), mode: "like", mk: mk, mklit: mklit, rej: rej}
 		}
 		return res{sqls: sqls, want: want, mode: "plain", mk: reMarker, mklit: reMarker, rej: rej}
 	}}
@@ -442,9 +450,18 @@ func traceqlSite(name, tmpl, which string, ticked bool) site {
 // ---- PromQL matchers
 func promSite(name string, tp labels.MatchType, inName bool, down bool, fn string) site {
 	return site{name: name, run: func(v string) res {
-		m := &labels.Matcher{Type: tp, Name: "job", Value: v}
+		// a matcher as the PromQL parser / remote-read decoder builds it (labels.NewMatcher compiles the anchored expression of a
+		// regex matcher; round 4: a hand-built struct has no compiled expression and the planner's question "does the matcher accept
+		// the empty string" panicked on it: every regex case of these positions was counted as rejected)
+		var m *labels.Matcher
+		var merr error
 		if inName {
-			m = &labels.Matcher{Type: tp, Name: v, Value: "x"}
+			m, merr = labels.NewMatcher(tp, v, "x")
+		} else {
+			m, merr = labels.NewMatcher(tp, "job", v)
+		}
+		if merr != nil {
+			return rejected("matcher: " + short(merr))
 		}
 		other := &labels.Matcher{Type: labels.MatchEqual, Name: "__name__", Value: "up"}
 		hints := &storage.SelectHints{Start: 1700000000000, End: 1700003600000, Step: 15000, Func: fn, Range: 60000}
@@ -537,7 +554,7 @@ func sites() []site {
 		// with a group are compared with nothing here, the group-free ones with the marker
 		inner := logqlSite("logql.regexp", `{a="b"} | regexp %s`, no)
 		s = append(s, site{name: inner.name, run: func(v string) res {
-			if strings.Contains(v, "(") {
+			if strings.Contains(nonCapturing.Replace(v), "(") {
 				return rejected("capture group changes the label list by design")
 			}
 			return inner.run(v)
@@ -720,6 +737,29 @@ func sites() []site {
 		}
 		return v, err
 	}))
+	// round 4: regex matchers inside the match[] parameters of the label-values endpoints
+	s = append(s, svcSite("labels.values.match.re", false, func(reg *registry, v string) (string, error) {
+		lit := dq(v)
+		want, ok := dqMeaning(lit)
+		if !ok {
+			return "", errors.New("literal")
+		}
+		q := service.NewQueryLabelsService(&model.ServiceData{Session: reg})
+		return want, drainS(q.Values(context.Background(), "lbl", []string{`{a=~` + lit + `}`}, 1700000000000, 1700003600000, 1))
+	}))
+	for _, op := range []string{"=~", "!~"} {
+		op := op
+		s = append(s, svcSite("labels.promvalues.match.re"+op, false, func(reg *registry, v string) (string, error) {
+			q := service.NewQueryLabelsService(&model.ServiceData{Session: reg})
+			var err error
+			if p := hx.Catch(func() {
+				err = drainS(q.PromValues(context.Background(), "lbl", []string{`up{job` + op + strconv.Quote(v) + `}`}, 1700000000000, 1700003600000, 2))
+			}); p != "" {
+				return "", errors.New("panic " + p)
+			}
+			return v, err
+		}))
+	}
 	s = append(s, svcSite("labels.series.match", false, func(reg *registry, v string) (string, error) {
 		lit := dq(v)
 		want, ok := dqMeaning(lit)
@@ -885,7 +925,22 @@ func sites() []site {
 		_, err := ps.MergeProfiles(context.Background(), `{a="b"}`, "process_cpu:"+v+":nanoseconds:cpu:nanoseconds", tFrom, tTo)
 		return v, err
 	}))
+	markRegexSites(s)
 	return s
+}
+
+// the positions that carry a regular expression
+func markRegexSites(s []site) {
+	extra := map[string]bool{"logql.sel.cluster": true, "logql.topk.sel": true, "logql.regexp": true, "labels.series.match": true,
+		"labels.values.match.re": true, "promql.down.val": true, "traceql.valuesv2.q": true, "traceql.re.agg": true, "traceql.tags.re": true,
+		"tempo.search.val.re": true, "tempo.sqlindexquery": true, "prof.selectseries.sel": true, "prof.timeseries.sel": true,
+		"prof.pseudo.period_unit.re": true, "prof.pseudo.sample_unit.nre": true, "prof.pseudo.profile_type.re": true}
+	for i := range s {
+		n := s[i].name
+		if extra[n] || strings.Contains(n, "=~") || strings.Contains(n, "!~") || strings.Contains(n, "|~") {
+			s[i].re = true
+		}
+	}
 }
 
 // ------------------------------------------------------------------ hostile strings
@@ -952,6 +1007,102 @@ func genIdent(r *rand.Rand, traceql bool) (string, string) {
 	return s, "ident"
 }
 
+// ------------------------------------------------------------------ hostile strings inside a regex of a recognisable shape
+//
+// A planner may special-case regular expressions of a simple shape (an anchored alternation of plain literals becomes an IN list, a
+// literal becomes an equality or a LIKE, `foo.*` a prefix test, ...).  Such a fast path builds its statement from PARTS of the value,
+// so a hostile string must also be tried INSIDE such a shape: the value is pre ++ atom ++ post, the baseline is the same shape around
+// the harmless marker (pre ++ marker ++ post), the intended bytes at the marker are the atom's.
+
+type shape struct{ class, pre, post string }
+
+var shapes = []shape{
+	{"alternation", "api|web", ""}, {"alternation", "", "web|api"}, {"alternation", "api|we", "b|db"}, {"alternation", "a|", "|c"},
+	{"anchored-alternation", "^(?:api|web", ")$"}, {"anchored-alternation", "^(?:", "|api)$"}, {"anchored-alternation", "^(api|web", ")$"},
+	{"anchored-alternation", "^api|web", "$"}, {"anchored-alternation", "^(?:api|we", "b|db)$"},
+	{"anchored-literal", "^web", "$"}, {"anchored-literal", "^(?:web", ")$"}, {"anchored-literal", "^", "$"}, {"anchored-literal", "^(?:", ")$"},
+	{"prefix-suffix", "web", ".*"}, {"prefix-suffix", ".*web", ""}, {"prefix-suffix", ".*", ".*"}, {"prefix-suffix", "^web", ".*$"},
+	{"prefix-suffix", "web", ".+"}, {"prefix-suffix", "(?s).*", ".*"}, {"prefix-suffix", "^.*", "$"},
+	{"case-insensitive", "(?i)web", ""}, {"case-insensitive", "(?i)api|web", ""}, {"case-insensitive", "(?i:web", ")"},
+	{"case-insensitive", "(?i)^web", "$"}, {"case-insensitive", "(?i)", ""}, {"case-insensitive", "(?i)^(?:api|", ")$"},
+	{"empty-alternative", "|web", ""}, {"empty-alternative", "web", "|"}, {"empty-alternative", "api||web", ""},
+	{"empty-alternative", "^(?:|web", ")$"}, {"empty-alternative", "(?:web", ")?"}, {"empty-alternative", "^(?:api|", "|)$"},
+	{"quoted-meta", "api\\.web", ""}, {"quoted-meta", "\\Qweb", "\\E"}, {"quoted-meta", "[w]eb", ""}, {"quoted-meta", "web", "[0-9]+"},
+	{"quoted-meta", "we(?:b", "){2}"}, {"quoted-meta", "web\\|", ""},
+}
+
+// atoms that are regex literals themselves (the shape of the expression stays the marker's): quotes, backslashes, comment openers,
+// and the quote written as a regex escape (a fast path that parses the expression gets the decoded byte)
+var shapeAtoms = []string{
+	"'", "'", "''", "\\'", "\\\\", "\\\\'", "'\\\\", "--", "-- ", "/*", "#", "# ", "#!", "\"", "`", ";",
+	"' OR '1'='1", "','db", "' --", "'/*", "\\x27", "\\x{27}", "\\047", "\\x5c", "\\x5c'", "’", "ʼ", "\xef\xbc\x87", "\n'", "\x00'", "\\n'",
+	"x' OR 'a'='a", "'; DROP TABLE samples; --",
+}
+
+func genShaped(r *rand.Rand) (shape, string) {
+	sh := shapes[r.Intn(len(shapes))]
+	var a string
+	if r.Intn(6) == 0 {
+		a = atoms[r.Intn(len(atoms))]
+	} else {
+		a = shapeAtoms[r.Intn(len(shapeAtoms))]
+	}
+	switch r.Intn(4) {
+	case 0:
+		a = "x" + a
+	case 1:
+		a = a + "y"
+	}
+	return sh, a
+}
+
+// the structure of a regular expression with the literals' contents erased, and whether it accepts the empty string when anchored
+func reStructure(x string) (string, bool) {
+	re, err := syntax.Parse(x, syntax.Perl)
+	if err != nil {
+		return "", false
+	}
+	var b strings.Builder
+	var walk func(e *syntax.Regexp)
+	walk = func(e *syntax.Regexp) {
+		fmt.Fprintf(&b, "(%d/%d", e.Op, e.Flags&(syntax.FoldCase|syntax.NonGreedy|syntax.DotNL|syntax.OneLine))
+		switch e.Op {
+		case syntax.OpLiteral:
+		case syntax.OpCharClass:
+			fmt.Fprintf(&b, " %v", e.Rune)
+		case syntax.OpRepeat:
+			fmt.Fprintf(&b, " %d,%d", e.Min, e.Max)
+		}
+		for _, s := range e.Sub {
+			walk(s)
+		}
+		b.WriteByte(')')
+	}
+	walk(re)
+	return b.String(), true
+}
+
+func acceptsEmpty(x string) (bool, bool) {
+	re, err := regexp.Compile("^(?:" + x + ")$")
+	if err != nil {
+		return false, false
+	}
+	return re.MatchString(""), true
+}
+
+// the shaped baseline applies when the hostile expression and the marker's have the same structure and give the same answer to
+// "accepts the empty string" (the one question the PromQL / Pyroscope planners ask about a value)
+func sameShape(hostile, harmless string) bool {
+	a, ok1 := reStructure(hostile)
+	b, ok2 := reStructure(harmless)
+	if !ok1 || !ok2 || a != b {
+		return false
+	}
+	ea, ok1 := acceptsEmpty(hostile)
+	eb, ok2 := acceptsEmpty(harmless)
+	return ok1 && ok2 && ea == eb
+}
+
 // ------------------------------------------------------------------ output
 
 type baseRec struct {
@@ -980,6 +1131,11 @@ type caseRec struct {
 	Logql string `json:"logql,omitempty"` // hex: the LogQL request text (first statement of a LogQL site only)
 	Clu   bool   `json:"cluster,omitempty"`
 	Tq    *tqReq `json:"tq,omitempty"` // the TraceQL request (TraceQL planner sites only)
+	// round 4: the value is pre ++ atom ++ post (lengths of pre and post); Shaped = the baseline is pre ++ marker ++ post and
+	// `want` is what the atom means (otherwise the whole value is compared with the marker alone)
+	Shape  []int  `json:"shape,omitempty"`
+	Shaped bool   `json:"shaped,omitempty"`
+	ShCls  string `json:"shape_class,omitempty"`
 }
 
 type runner struct {
@@ -1018,7 +1174,10 @@ func (rn *runner) baseFor(st site, mk, mklit string, stmt int, nstmts int) int {
 	return rn.bases[key]
 }
 
-func (rn *runner) one(st site, v, class string) {
+func (rn *runner) one(st site, v, class string) { rn.oneShaped(st, v, class, 0, 0) }
+
+// v = pre ++ atom ++ post with len(pre) = npre, len(post) = npost (0, 0: no shape)
+func (rn *runner) oneShaped(st site, v, class string, npre, npost int) {
 	var r res
 	lastLogql.q = ""
 	lastTq = nil
@@ -1037,10 +1196,23 @@ func (rn *runner) one(st site, v, class string) {
 		// the empty string is its own harmless baseline (planners may legitimately treat "no value" differently)
 		r.mk, r.mklit = "", ""
 	}
+	shaped := false
+	var shp []int
+	if npre+npost > 0 && npre+npost <= len(v) {
+		shp = []int{npre, npost}
+		pre, post := v[:npre], v[len(v)-npost:]
+		harmless := pre + marker + post
+		if r.mode == "plain" && len(r.want) >= npre+npost && strings.HasPrefix(r.want, pre) && strings.HasSuffix(r.want, post) && sameShape(v, harmless) {
+			// the position is compared with the same expression around the marker; the intended bytes at the marker are the atom's
+			r.mk, r.mklit = harmless, marker
+			r.want = r.want[npre : len(r.want)-npost]
+			shaped = true
+		}
+	}
 	for i, q := range r.sqls {
 		rn.id++
 		c := caseRec{Kind: "case", ID: rn.id, Site: st.name, Class: class, Mode: r.mode, Val: hx.Hex(v),
-			Want: hx.Hex(r.want), Sql: hx.Hex(q), Stmt: i, Base: -1}
+			Want: hx.Hex(r.want), Sql: hx.Hex(q), Stmt: i, Base: -1, Shape: shp, Shaped: shaped}
 		if r.mode != "raw" {
 			c.Base = rn.baseFor(st, r.mk, r.mklit, i, len(r.sqls))
 		}
@@ -1072,7 +1244,11 @@ func main() {
 				return
 			}
 			if s, ok := byName[c.Site]; ok {
-				rn.one(s, hx.UnHex(c.Val), "corpus")
+				if len(c.Shape) == 2 {
+					rn.oneShaped(s, hx.UnHex(c.Val), "corpus", c.Shape[0], c.Shape[1])
+				} else {
+					rn.one(s, hx.UnHex(c.Val), "corpus")
+				}
 			} else {
 				fmt.Fprintln(os.Stderr, "unknown site", c.Site)
 			}
@@ -1083,6 +1259,11 @@ func main() {
 	for i := 0; i < f.N; i++ {
 		st := ss[i%len(ss)]
 		var v, class string
+		if st.re && r.Intn(100) < 45 {
+			sh, a := genShaped(r)
+			rn.oneShaped(st, sh.pre+a+sh.post, "shape:"+sh.class, len(sh.pre), len(sh.post))
+			continue
+		}
 		if strings.Contains(st.name, ".ident.") {
 			v, class = genIdent(r, strings.HasPrefix(st.name, "traceql"))
 		} else {
